@@ -778,6 +778,43 @@ func (s *seqRunner[V]) macroAliasProbe() bool {
 		return false
 	}
 	op0 := cands[r.intn(len(cands))]
+	// one time in three the class function is drawn first and an operand of its kind is found or built
+	var classFns []string
+	for _, c := range []string{"SAnd", "SOr", "SSans", "SXor", "Concat", "Merge"} {
+		if have[c] {
+			classFns = append(classFns, c)
+		}
+	}
+	forced := ""
+	if len(classFns) > 0 && r.chance(1, 3) {
+		f := classFns[r.intn(len(classFns))]
+		k := map[string]okind{"Concat": kLst, "Merge": kCat}[f]
+		if f[0] == 'S' {
+			k = kSet
+		}
+		var own []int
+		for _, i := range s.ofKind(k) {
+			if s.pool[i].coll < limBase {
+				own = append(own, i)
+			}
+		}
+		if len(own) == 0 && k != kCat && len(s.pool)+4 <= s.maxPool {
+			s.nextSlice = s.genVals(2 + r.intn(5))
+			if s.do("NewSlice") {
+				s.fromArray(s.outer.(digester), k, len(s.pool)-1)
+				if !s.hung && s.pool[len(s.pool)-1].kind == k {
+					own = []int{len(s.pool) - 1}
+				}
+			}
+			s.nextSlice = nil
+		}
+		if s.hung {
+			return true
+		}
+		if len(own) > 0 {
+			op0, forced = own[r.intn(len(own))], f
+		}
+	}
 	// the operand's last insertions are at its end (spare capacity, if the implementation grows by append)
 	if r.chance(2, 3) {
 		for k := 1 + r.intn(3); k > 0 && !s.hung; k-- {
@@ -788,6 +825,9 @@ func (s *seqRunner[V]) macroAliasProbe() bool {
 		}
 	}
 	name := pickWeighted(r, options(s.pool[op0].kind))
+	if forced != "" {
+		name = forced
+	}
 	if creates[name] || true {
 		if s.full() {
 			return true
@@ -797,7 +837,11 @@ func (s *seqRunner[V]) macroAliasProbe() bool {
 	second := -1
 	switch name {
 	case "SAnd", "SOr", "SSans", "SXor", "Concat", "Merge":
-		switch x := r.intn(8); {
+		x := r.intn(8)
+		if forced != "" {
+			x = r.intn(4) // the degenerate operands half of the time and a quarter of the time
+		}
+		switch {
 		case x < 2:
 			second = s.emptyOf(s.pool[op0].kind)
 		case x == 2:
@@ -915,32 +959,50 @@ func shapedSeq[V any](r *rng, present []V, stranger func() V, L int) []V {
 			out[p] = present[perm[p%n]]
 		}
 	}
-	if r.chance(1, 6) {
-		return out
+	dup := func() {
+		if L < 2 {
+			return
+		}
+		// one time in two the repeat displaces an EARLIER position (it comes before some value's first mention)
+		p1, p2 := r.intn(L), r.intn(L)
+		if p1 == p2 {
+			p2 = (p1 + 1) % L
+		}
+		if r.chance(1, 2) && p1 > p2 {
+			p1, p2 = p2, p1
+		}
+		out[p1] = out[p2]
 	}
-	for done := false; !done; {
-		if L >= 2 && r.chance(1, 3) {
-			// a duplicate; one time in two it displaces an EARLIER position (the repeat comes before some value's first mention)
-			p1, p2 := r.intn(L), r.intn(L)
-			if p1 != p2 {
-				if r.chance(1, 2) && p1 > p2 {
-					p1, p2 = p2, p1
-				}
-				out[p1] = out[p2]
-				done = true
+	strangerAt := func(where int) {
+		switch {
+		case where == 0 || L < 3 && where == 1:
+			out[0] = stranger()
+		case where == 1:
+			out[1+r.intn(L-2)] = stranger()
+		default:
+			out[L-1] = stranger()
+		}
+	}
+	switch r.intn(6) {
+	case 0: // the control: exactly the values, in a drawn order
+	case 1, 2: // repeats only
+		dup()
+		if r.chance(1, 3) {
+			dup()
+		}
+	case 3, 4: // one stranger at the front, in the middle or at the end
+		strangerAt(r.intn(3))
+		if r.chance(1, 3) {
+			dup()
+		}
+	default:
+		for w := 0; w < 3; w++ {
+			if r.chance(1, 2) {
+				strangerAt(w)
 			}
 		}
-		if r.chance(1, 3) {
-			out[0] = stranger()
-			done = true
-		}
-		if L >= 3 && r.chance(1, 3) {
-			out[1+r.intn(L-2)] = stranger()
-			done = true
-		}
-		if r.chance(1, 5) {
-			out[L-1] = stranger()
-			done = true
+		if r.chance(1, 2) {
+			dup()
 		}
 	}
 	return out
@@ -1191,7 +1253,7 @@ var macroTable = map[string][]weighted{
 	"C13": {{"requery", 4}, {"aliasprobe", 2}},
 	"C14": {{"requery", 2}, {"bulkkeys", 7}, {"aliasprobe", 2}, {"assocwrite", 2}},
 	"C15": {{"nilcall", 2}, {"limcall", 8}, {"aliasprobe", 8}, {"ascbuild", 3}, {"requery", 1}},
-	"C16": {{"nilcall", 4}, {"aliasprobe", 3}, {"bulkkeys", 2}, {"assocwrite", 1}, {"requery", 1}},
+	"C16": {{"nilcall", 4}, {"aliasprobe", 3}, {"bulkkeys", 4}, {"assocwrite", 1}, {"requery", 1}},
 	"C17": {{"requery", 3}, {"assocwrite", 2}, {"aliasprobe", 1}},
 	"C18": {{"aliasprobe", 9}, {"assocwrite", 5}, {"ascbuild", 2}, {"nilcall", 1}, {"bulkkeys", 1}, {"requery", 1}, {"bulkvals", 2}},
 }
